@@ -20,7 +20,7 @@ class Case:
         )
         self.var_mode = p.get("var_mode", "float")
         self.names = ["st_var", "ast_var"] + (["rst_var", "rast_var"] if p["double"] else [])
-        self.fix = p.get("fix", None)  # None | 'gamma' | 'dalpha' | 'alpha' | 'alpha+gamma'
+        self.fix = p.get("fix", None)  # None | 'gamma' | 'dalpha' | 'alpha' | 'alpha+gamma' | 'gamma+dalpha' (single ended)
         self.fix_var = p.get("fix_var", 0.0)
 
     @property
@@ -37,11 +37,12 @@ class Case:
         """fix_* keyword arguments at the true values"""
         kw = {}
         f, v = self.f, self.fix_var
-        if self.fix in ("gamma", "alpha+gamma"):
+        toks = set((self.fix or "").split("+")) - {""}
+        if "gamma" in toks:
             kw["fix_gamma"] = (f.gamma, v)
-        if self.fix == "dalpha":
+        if "dalpha" in toks:
             kw["fix_dalpha"] = (f.truth["dalpha"], v)
-        if self.fix in ("alpha", "alpha+gamma"):
+        if "alpha" in toks:
             if f.double:
                 ix0 = int(np.min(f.ds.dts.ufunc_per_section(sections=f.sections, x_indices=True, calc_per="all")))
                 A = f.truth["A"] - f.truth["A"][ix0]  # alpha is zero at the first reference location by definition
